@@ -31,8 +31,8 @@ def run(cx):
             'source-ip-canonical-equal': rf'^eq:IpAddr\(IpAddr::to_canonical\(SocketAddr::ip\(SerialMessage::addr\({REQ_BYTES}\)\)\),IpAddr::to_canonical\(SocketAddr::ip\({RECV}\.1\)\)\)$',
             'source-port-equal': rf'^eq\(SocketAddr::port\(SerialMessage::addr\({REQ_BYTES}\)\),SocketAddr::port\({RECV}\.1\)\)$',
             'id-equal': r'^eq\(\^arg1\.request(\.metadata)?\.id,try\(DnsResponse::from_buffer\(.*\)\)@Continue\.0(\.\w+)*\.id\)$',
-            'questions-subset-of-request': r"^<Iter<'a;T> as Iterator>::all\(slice::iter\(try\(DnsResponse::from_buffer\(.*\)\)@Continue\.0(\.\w+)*\.queries\),closure:<UdpRequest<P> as Request>::send::\{closure#0\}::\{closure#0\}\)$",
-            'case-matches-when-randomised': r"^!\^arg1\.case_randomization$|^<Iter<'a;T> as Iterator>::all\(slice::iter\(.*\.queries\),closure:<UdpRequest<P> as Request>::send::\{closure#0\}::\{closure#1\}\)$",
+            'questions-subset-of-request': r"^<Iter<'a;T> as Iterator>::all\(slice::iter\(try\(DnsResponse::from_buffer\(.*\)\)@Continue\.0(\.\w+)*\.queries\),closure:<UdpRequest<P> as Request>::send::\{closure#0\}::\{closure@all#0\}\)$",
+            'case-matches-when-randomised': r"^!\^arg1\.case_randomization$|^<Iter<'a;T> as Iterator>::all\(slice::iter\(.*\.queries\),closure:<UdpRequest<P> as Request>::send::\{closure#0\}::\{closure@all#1\}\)$",
             'within-3-datagrams': r'^ok\(range::next\(Range\(0,3\)\)\)$',
             'datagram-decoded': r'^ok\(DnsResponse::from_buffer\(',
         }
@@ -54,12 +54,12 @@ def run(cx):
         # request id on the wire is the id compared
         tv = cx.calls(f, r'Message::to_vec$')
         cx.check('C16.G1', len(tv) >= 1, f.path, 'calls', 'request-serialised', str(len(tv)))
-    c0 = cx.fn('C16.G1', U + '::{closure#0}')
+    c0 = cx.fn('C16.G1', U + '::{closure@all#0}')
     if c0:
         t = cx.true_returns(c0)
         ok = len(t) == 1 and bool(re.search(r'^slice::contains\(\^try\(Message::from_vec\(SerialMessage::bytes\(.*\)\)\)@Continue\.0(\.\w+)*\.queries,arg2\)$', t[0].term))
         cx.check('C16.G1', ok, c0.path, 'ret', 'question-membership-is-full-Query-equality', '; '.join(s.term[:200] for s in t), t[0].loc if t else '')
-    c1 = cx.fn('C16.G1', U + '::{closure#1}::{closure#0}')
+    c1 = cx.fn('C16.G1', U + '::{closure@all#1}::{closure@any#0}')
     if c1:
         t = cx.true_returns(c1)
         cx.guard('C16.G1', t, {'same-query': r'^eq:Query\(\^arg2,arg2\)$|^eq:Query\(arg2,\^arg2\)$', 'same-case': r'^Name::eq_case\(arg2\.name,\^arg2\.name\)$|^Name::eq_case\(\^arg2\.name,arg2\.name\)$'}, fn=c1)
